@@ -54,7 +54,9 @@ Definition lcase_ok (l : lcase) : bool :=
 Record ccase := mkClosing { cearly : bool; creturned : bool; cunack : N }.
 Definition ccase_ok (c : ccase) : bool := negb (cearly c) && creturned c && (cunack c =? 1)%N.
 
-(* kinds 5-7: a Will with RETAIN=1 is also stored as retained message (at connection end / by the delay timer / at start-up);
+(* kind 9: a BUSY client is taken over and falls silent: the new CONNECT is answered at once (ten rounds); kind 10: shutdown with
+   acknowledged messages still in the routing queue: all of them are delivered after the restart (three rounds).
+   kinds 5-7: a Will with RETAIN=1 is also stored as retained message (at connection end / by the delay timer / at start-up);
    kind 8: a DISCONNECT that is itself a protocol error does not suppress the Will (C11).
    kind 3: a SLOW reader with a backlog on its way is taken over: answered, and the old connection decodes everything it was
    sent, a DISCONNECT "session taken over" last.
